@@ -65,6 +65,15 @@ def _message(spec):
 
 
 def run_case(case):
+    res = _once(case, HANG)
+    if res['monitors'] and all(m['rule'] in ('pipe-missing', 'pipe-error') for m in res['monitors']):
+        first = [m['rule'] for m in res['monitors']]      # only a wait that ran into its bound: confirm once
+        res = _once(case, 3 * HANG)
+        res['retried_after'] = first
+    return res
+
+
+def _once(case, hang):
     ev = []
     mon = []
     tmpd = tempfile.mkdtemp(prefix='verif-c18-')
@@ -111,7 +120,7 @@ def run_case(case):
         for t in ths:
             t.start()
         import time
-        deadline = time.time() + HANG
+        deadline = time.time() + hang
         for t in ths:
             t.join(max(0.05, deadline - time.time()))
         if any(t.is_alive() for t in ths):
